@@ -27,35 +27,42 @@ from fractions import Fraction
 from vlib.ctx import Infra, TemplateMismatch
 
 THEOREMS = [
-    # generic PMF layer
-    "Scenic.Sampler.mass_bind",
-    "Scenic.Sampler.loop_success",
-    "Scenic.Sampler.loop_reject",
-    "Scenic.Sampler.loop_scene_total",
-    "Scenic.Sampler.activation_mass",
-    # sampler
-    "Scenic.Sampler.visit_eq_seqAlong",
-    "Scenic.Sampler.sampleAll_eq_seqAlong",
-    "Scenic.Sampler.postorder_nodup",
-    "Scenic.Sampler.postorder_children_first",
-    "Scenic.Sampler.seqAlong_consistent",
-    "Scenic.Sampler.seqAlong_swap",
-    "Scenic.Sampler.check_perm",
-    # property theorems
+    # property theorems (Props/C01.lean), instantiated on the regenerated configuration
     "Scenic.C01.sampleAll_once",
     "Scenic.C01.every_reference_sees_the_draw",
+    "Scenic.C01.prior_order_independent",
+    "Scenic.C01.drange_spec",
+    "Scenic.C01.drange_reject_iff_empty",
+    "Scenic.C01.options_uniform",
+    "Scenic.C01.activation_spec",
     "Scenic.C01.attempt_eq_prior_restricted",
     "Scenic.C01.attempt_order_irrelevant",
     "Scenic.C01.generate_closed_form",
     "Scenic.C01.generate_rejection",
     "Scenic.C01.generate_conditional_independent_of_n",
     "Scenic.C01.soft_mixture",
+    "Scenic.C01.generate_total_closed_form",
     "Scenic.C01.resample_indep",
     "Scenic.C01.rebinding",
-    "Scenic.C01.drange_spec",
-    "Scenic.C01.drange_reject_iff_empty",
-    "Scenic.C01.options_uniform",
-    "Scenic.C01.activation_spec",
+    # the lemmas they rest on (Lemmas/Sampler*.lean), for every configuration
+    "Scenic.Sampler.mass_bind",
+    "Scenic.Sampler.bind_assoc",
+    "Scenic.Sampler.loop_success",
+    "Scenic.Sampler.loop_beyond",
+    "Scenic.Sampler.loop_reject",
+    "Scenic.Sampler.loop_scene_total",
+    "Scenic.Sampler.activation_mass",
+    "Scenic.Sampler.visit_eq_seqAlong",
+    "Scenic.Sampler.sampleAll_eq_seqAlong",
+    "Scenic.Sampler.postorder_nodup",
+    "Scenic.Sampler.postorder_children_first",
+    "Scenic.Sampler.seqAlong_consistent",
+    "Scenic.Sampler.draw_congr",
+    "Scenic.Sampler.check_perm",
+    "Scenic.Sampler.seqAlong_pair_indep",
+    "Scenic.Sampler.mass_bindO_comm",
+    "Scenic.Sampler.seqAlong_swap_head",
+    "Scenic.Sampler.seqAlong_perm",
 ]
 SIDE = ["Scenic.C01.gen_cfg_wf"]
 
@@ -139,6 +146,16 @@ def canon(v):
         return "(" + ",".join(canon(x) for x in v) + ")"
     if isinstance(v, list):
         return "[" + ",".join(canon(x) for x in v) + "]"
+    if isinstance(v, dict):
+        # a dict is observed as the tuple of its (key, value) pairs in insertion order
+        parts = []
+        for k, x in v.items():
+            ck, cx = canon(k), canon(x)
+            if cx.startswith("<") or ck.startswith("<"):
+                bad = cx if cx.startswith("<") else ck
+                return f"<unsampled-in-dict:{bad[1:-1]}>"
+            parts.append(f"({ck},{cx})")
+        return "(" + ",".join(parts) + ")"
     if v is None:
         return "N"
     tn = type(v).__name__
@@ -170,7 +187,7 @@ class Term:
     """A program of the fragment as a DAG.
 
     nodes[i] is one of
-      ("const", v) | ("drange", lo, hi) | ("windex", [w...]) | ("mux", idx, [opt...])
+      ("const", v) | ("drange", lo, hi) | ("selector", n) | ("dynsel", len) | ("windex", [w...]) | ("mux", idx, [opt...])
       | ("ustar", sel, [(starred, id)...]) | ("op", name, [(starred, id)...])
     with every referenced id < i.  outputs: [(label, id)].  reqs: [(prob, rexpr)] where
       rexpr = ("ref", id) | ("const", v) | ("op", name, [rexpr...]).
@@ -193,8 +210,10 @@ class Term:
     def deps(self, i):
         nd = self.nodes[i]
         k = nd[0]
-        if k in ("const", "windex"):
+        if k in ("const", "windex", "selector"):
             return []
+        if k == "dynsel":
+            return [nd[1]]
         if k == "drange":
             return [nd[1], nd[2]]
         if k == "mux":
@@ -232,7 +251,7 @@ class Term:
         return seen
 
     def n_random(self):
-        return sum(1 for i in self.reachable() if self.nodes[i][0] in ("drange", "windex"))
+        return sum(1 for i in self.reachable() if self.nodes[i][0] in ("drange", "windex", "selector", "dynsel"))
 
     # ------------------------------------------------------------ serialisation for the Lean driver
     def line(self):
@@ -243,6 +262,10 @@ class Term:
                 toks += ["C"] + val_tokens(nd[1])
             elif k == "drange":
                 toks += ["R", str(nd[1]), str(nd[2])]
+            elif k == "selector":
+                toks += ["S", str(nd[1])]
+            elif k == "dynsel":
+                toks += ["D", str(nd[1])]
             elif k == "windex":
                 toks += ["W", str(len(nd[1]))] + [f"{Fraction(w).numerator}/{Fraction(w).denominator}" for w in nd[1]]
             elif k == "mux":
@@ -345,6 +368,16 @@ def spec_prior(term, limit=200000):
                 return
             n = right - left + 1
             for v in range(left, right + 1):
+                env[i] = v
+                rec(k + 1, env, p / n)
+        elif kind in ("selector", "dynsel"):
+            # the selector of a uniform choice among n options: every index 0..n-1 equally likely
+            n = nd[1] if kind == "selector" else env[nd[1]]
+            if n < 1:
+                count[0] += 1
+                out.append((None, p))
+                return
+            for v in range(n):
                 env[i] = v
                 rec(k + 1, env, p / n)
         elif kind == "windex":
@@ -709,6 +742,13 @@ def extract_term(sc, labels):
             return t.add("op", FUNCNAMES[fn], [starred(a) for a in v.arguments])
         if isinstance(v, Vector):
             return t.add("op", "tuple", [(False, node_of(c)) for c in v.coordinates])
+        if type(v).__name__ == "DictDistribution":
+            pairs = [t.add("op", "tuple", [(False, node_of(k)), (False, node_of(x))])
+                     for k, x in zip(v.keyDists, v.valueDists)]
+            return t.add("op", "tuple", [(False, p) for p in pairs])
+        if isinstance(v, dict):
+            pairs = [t.add("op", "tuple", [(False, node_of(k)), (False, node_of(x))]) for k, x in v.items()]
+            return t.add("op", "tuple", [(False, p) for p in pairs])
         if needsSampling(v) or isinstance(v, D.Samplable) and type(v).__name__ not in ("Vector",):
             if isinstance(v, D.Distribution) or needsSampling(v):
                 raise OutsideFragment(f"distribution {type(v).__name__}")
@@ -934,8 +974,7 @@ class ProgGen:
         self.budget -= 1
         k = self.rng.choice([2, 2, 3, 3, 4]) if kind == "num" else self.rng.choice([2, 3])
         opts = self.options_list(kind, k)
-        lo, hi = self.t.const(0), self.t.const(k - 1)
-        idx = self.t.add("drange", lo, hi)
+        idx = self.t.add("selector", k)
         i = self.t.add("mux", idx, [o["id"] for o in opts])
         self.features.add("Uniform")
         return dict(text="Uniform(" + ", ".join(o["text"] for o in opts) + ")", id=i, kind=kind, dist=True,
@@ -981,7 +1020,7 @@ class ProgGen:
             i = self.t.add("drange", p[1], p[2])
             prim = p
         elif p[0] == "mux-u":
-            idx = self.t.add("drange", self.t.const(0), self.t.const(len(p[1]) - 1))
+            idx = self.t.add("selector", len(p[1]))
             i = self.t.add("mux", idx, list(p[1]))
             prim = p
         elif p[0] == "mux-w":
@@ -1006,8 +1045,7 @@ class ProgGen:
         acc = self.t.const(nfixed)
         for pid in parts:
             acc = self.t.add("op", "add", [(False, acc), (False, pid)])
-        hi = self.t.add("op", "sub", [(False, acc), (False, self.t.const(1))])
-        sel = self.t.add("drange", self.t.const(0), hi)
+        sel = self.t.add("dynsel", acc)
         return self.t.add("ustar", sel, list(opts))
 
     def num_expr(self, depth=2):
@@ -1145,7 +1183,7 @@ class ProgGen:
         self.budget -= 1
         k = self.rng.choice([2, 3])
         opts = self.options_list("seq", k)
-        idx = self.t.add("drange", self.t.const(0), self.t.const(k - 1))
+        idx = self.t.add("selector", k)
         i = self.t.add("mux", idx, [o["id"] for o in opts])
         self.features.add("Options-list")
         return dict(text="Options([" + ", ".join(o["text"] for o in opts) + "])", id=i, kind="seq", dist=True,
@@ -1253,7 +1291,7 @@ class ProgGen:
         return xid, bool(extra)
 
     def uniform_consts(self, vals):
-        idx = self.t.add("drange", self.t.const(0), self.t.const(len(vals) - 1))
+        idx = self.t.add("selector", len(vals))
         i = self.t.add("mux", idx, [self.t.const(v) for v in vals])
         return dict(text="Uniform(" + ", ".join(map(str, vals)) + ")", id=i, kind="num", dist=True, prim=None)
 
@@ -1333,6 +1371,14 @@ class ProgGen:
     def add_param(self, k):
         r = self.rng.random()
         names = [n for n in self.names]
+        if names and self.rng.random() < 0.05:
+            picks = [self.rng.choice(names) for _ in range(self.rng.randint(1, 2))]
+            items = [(f"k{j}", self.ref(n)) for j, n in enumerate(picks)]
+            self.lines.append(f"param q{k} = {{" + ", ".join(f"'{key}': {it['text']}" for key, it in items) + "}")
+            pairs = [self.t.add("op", "tuple", [(False, self.t.const(key)), (False, it["id"])]) for key, it in items]
+            self.t.outputs.append((f"p:q{k}", self.t.add("op", "tuple", [(False, p) for p in pairs])))
+            self.features.add("dict-param")
+            return
         if r < 0.45 and names:
             n = self.rng.choice(names)
             self.lines.append(f"param q{k} = {n}")
@@ -1352,3 +1398,490 @@ class ProgGen:
             e = self.num_expr(1)
             self.lines.append(f"param q{k} = {e['text']}")
             self.t.outputs.append((f"p:q{k}", e["id"]))
+
+
+# =========================================================================== corpus of tiny programs (run first)
+def _corpus():
+    """(name, code, mode2D, term) — one feature each, so that a broken feature yields a readable failing input"""
+    out = []
+
+    def T(build):
+        t = Term()
+        build(t)
+        return t
+
+    def c1(t):
+        lo, hi = t.const(1), t.const(3)
+        x = t.add("drange", lo, hi)
+        t.outputs.append(("p:a", x))
+    out.append(("drange", "param a = DiscreteRange(1, 3)\n", False, T(c1)))
+
+    def c2(t):
+        x = t.add("drange", t.const(0.5), t.const(2.5))
+        y = t.add("drange", t.const(-1.5), t.const(0))
+        t.outputs += [("p:a", x), ("p:b", y)]
+    out.append(("drange-fractional", "param a = DiscreteRange(0.5, 2.5)\nparam b = DiscreteRange(-1.5, 0)\n", False, T(c2)))
+
+    def c3(t):
+        x = t.add("drange", t.const(1), t.const(3))
+        y = t.add("drange", x, t.const(2))
+        t.outputs += [("p:a", y)]
+    out.append(("drange-empty", "x = DiscreteRange(1, 3)\nparam a = DiscreteRange(x, 2)\n", False, T(c3)))
+
+    def c4(t):
+        x = t.add("drange", t.const(1), t.const(2))
+        tup = t.add("op", "tuple", [(False, x), (False, x)])
+        s = t.add("op", "add", [(False, x), (False, x)])
+        t.outputs += [("p:a", tup), ("p:b", s)]
+    out.append(("shared", "x = DiscreteRange(1, 2)\nparam a = (x, x)\nparam b = x + x\n", False, T(c4)))
+
+    def c5(t):
+        idx = t.add("selector", 3)
+        m = t.add("mux", idx, [t.const(10), t.const(20), t.const(30)])
+        t.outputs += [("p:a", m)]
+    out.append(("uniform", "param a = Uniform(10, 20, 30)\n", False, T(c5)))
+
+    def c6(t):
+        idx = t.add("windex", [Fraction(1), Fraction(3)])
+        m = t.add("mux", idx, [t.const(1), t.const(2)])
+        t.outputs += [("p:a", m)]
+    out.append(("options-weighted", "param a = Options({1: 1, 5: 0, 2: 3})\n", False, T(c6)))
+
+    def c7(t):
+        x = t.add("drange", t.const(1), t.const(2))
+        y = t.add("drange", t.const(1), t.const(2))
+        tup = t.add("op", "tuple", [(False, x), (False, y)])
+        t.outputs += [("p:a", tup)]
+    out.append(("resample", "x = DiscreteRange(1, 2)\nparam a = (x, resample(x))\n", False, T(c7)))
+
+    def c8(t):
+        x = t.add("drange", t.const(1), t.const(4))
+        t.outputs += [("p:a", x)]
+        t.reqs.append((Fraction(1, 4), ("op", "gt", [("ref", x), ("const", 1)])))
+        t.reqs.append((Fraction(1), ("op", "lt", [("ref", x), ("const", 4)])))
+    out.append(("soft-and-hard", "x = DiscreteRange(1, 4)\nparam a = x\nrequire[0.25] x > 1\nrequire x < 4\n", False, T(c8)))
+
+    def c9(t):
+        x = t.add("drange", t.const(1), t.const(3))
+        x2 = t.add("drange", t.const(5), t.const(6))
+        t.outputs += [("p:a", x2)]
+        t.reqs.append((Fraction(1), ("op", "gt", [("ref", x), ("const", 1)])))
+    out.append(("rebinding", "x = DiscreteRange(1, 3)\nrequire x > 1\nx = DiscreteRange(5, 6)\nparam a = x\n", False, T(c9)))
+
+    def c10(t):
+        idx = t.add("selector", 2)
+        s = t.add("mux", idx, [t.const((1, 2)), t.const((3, 4, 5))])
+        ln = t.add("op", "len", [(False, s)])
+        acc = t.add("op", "add", [(False, t.const(0)), (False, ln)])
+        sel = t.add("dynsel", acc)
+        u = t.add("ustar", sel, [(True, s)])
+        m = t.add("op", "max", [(True, s)])
+        t.outputs += [("p:a", u), ("p:b", m)]
+    out.append(("star", "s = Uniform((1, 2), (3, 4, 5))\nparam a = Uniform(*s)\nparam b = max(*s)\n", False, T(c10)))
+
+    def c11(t):
+        x = t.add("drange", t.const(1), t.const(2))
+        idx = t.add("selector", 2)
+        y = t.add("mux", idx, [t.const(0), t.const(5)])
+        z = t.const(0)
+        pos = t.add("op", "tuple", [(False, y), (False, z), (False, z)])
+        t.outputs += [("o0:position", pos), ("o0:foo", x)]
+        t.reqs.append((Fraction(1, 2), ("op", "gt", [("op", "add", [("ref", y), ("ref", x)]), ("const", 1)])))
+    code11 = "x = DiscreteRange(1, 2)\nego = new Object at (Uniform(0, 5), 0, 0), with foo x\nrequire[0.5] ego.position.x + ego.foo > 1\n"
+    out.append(("object", code11, False, T(c11)))
+
+    def c12(t):
+        i1 = t.add("selector", 2)
+        a = t.add("mux", i1, [t.const(0), t.const(5)])
+        i2 = t.add("selector", 3)
+        b = t.add("mux", i2, [t.const(0), t.const(5), t.const(10)])
+        z = t.const(0)
+        t.outputs += [("o0:position", t.add("op", "tuple", [(False, a), (False, z), (False, z)])),
+                      ("o1:position", t.add("op", "tuple", [(False, b), (False, z), (False, z)]))]
+        t.defaults.append(("op", "ne", [("ref", a), ("ref", b)]))
+    code12 = "ego = new Object at (Uniform(0, 5), 0)\nob1 = new Object at (Uniform(0, 5, 10), 0), with requireVisible False\n"
+    out.append(("collision-2d", code12, True, T(c12)))
+
+    def c13(t):
+        x = t.add("drange", t.const(0), t.const(3))
+        h = t.add("op", "truediv", [(False, x), (False, t.const(2))])
+        d = t.add("drange", h, t.add("op", "add", [(False, x), (False, t.const(0.5))]))
+        fl = t.add("op", "floordiv", [(False, t.const(7)), (False, t.add("op", "add", [(False, x), (False, t.const(2))]))])
+        t.outputs += [("p:a", t.add("op", "list", [(False, d), (False, fl), (False, t.add("op", "neg", [(False, x)]))]))]
+    out.append(("lifted", "x = DiscreteRange(0, 3)\nparam a = [DiscreteRange(x / 2, x + 0.5), 7 // (x + 2), -x]\n", False, T(c13)))
+
+    def c14(t):
+        x = t.add("drange", t.const(1), t.const(2))
+        inner = t.add("op", "tuple", [(False, x), (False, t.const(3))])
+        pa = t.add("op", "tuple", [(False, t.const("a")), (False, x)])
+        pb = t.add("op", "tuple", [(False, t.const("b")), (False, inner)])
+        t.outputs += [("p:d", t.add("op", "tuple", [(False, pa), (False, pb)]))]
+    out.append(("dict-container", "x = DiscreteRange(1, 2)\nparam d = {'a': x, 'b': (x, 3)}\n", False, T(c14)))
+    return out
+
+
+# =========================================================================== one case, evaluated in a worker
+def choose_n(npaths, r_nonzero):
+    if not r_nonzero:
+        return 1
+    if npaths <= 12:
+        return 3
+    if npaths <= 60:
+        return 2
+    return 1
+
+
+def make_case(seed):
+    """generate one program from its seed (deterministic), bounded in RNG paths"""
+    rng = random.Random(seed)
+    for _attempt in range(200):
+        mode2D = rng.random() < 0.3
+        g = ProgGen(rng, mode2D=mode2D, budget=rng.choice([3, 5, 8]))
+        code, term = g.build()
+        try:
+            prior, npaths = spec_prior(term, limit=4 * MAX_PATHS)
+        except (Crash, OutsideFragment):
+            continue
+        nsoft = sum(1 for p, _ in term.reqs if 0 < p < 1)
+        if term.n_random() == 0 or npaths * (2 ** nsoft) > MAX_PATHS * 0.6:
+            continue
+        return dict(name=f"seed{seed}", code=code, mode2D=mode2D, term=term, features=sorted(g.features), npaths=npaths)
+    raise Infra("program generator could not produce a program within bounds")
+
+
+def examine(case):
+    """compile the program, enumerate the real sampler, re-derive the term from the compiled scenario, evaluate the
+    declarative semantics.  Returns only picklable data."""
+    term = case["term"]
+    labels = [l for l, _ in term.outputs]
+    res = dict(name=case["name"], code=case["code"], mode2D=case["mode2D"], labels=labels,
+               features=case.get("features", []), genline=term.line(), nrandom=term.n_random())
+    try:
+        spec1 = spec_pmf(term, 1)
+    except (Crash, OutsideFragment) as e:
+        res["status"] = f"generator-invalid:{e}"
+        return res
+    rej = sum(p for k, p in spec1.items() if k.endswith("|rej"))
+    npaths = case.get("npaths") or spec_prior(term)[1]
+    n = choose_n(npaths * 2 ** len([1 for p, _ in term.reqs if 0 < p < 1]), rej != 0)
+    res["n"] = n
+    res["spec"] = spec_pmf(term, n) if n > 1 else spec1
+    try:
+        sc = compile_program(case["code"], case["mode2D"])
+    except Exception as e:
+        res["status"] = f"compile-failed:{type(e).__name__}:{str(e)[:200]}"
+        return res
+    try:
+        res["real"], res["paths"] = real_pmf(sc, labels, n, max_paths=4 * MAX_PATHS)
+    except OutsideFragment as e:
+        res["status"] = f"outside-fragment:{e}"
+        return res
+    try:
+        ext = extract_term(sc, labels)
+        res["extline"] = ext.line()
+        res["ext_nrandom"] = ext.n_random()
+    except OutsideFragment as e:
+        res["extline"] = None
+        res["extract_error"] = str(e)
+    res["status"] = "ok"
+    return res
+
+
+def _worker(arg):
+    kind, payload = arg
+    try:
+        case = make_case(payload) if kind == "seed" else payload
+        return examine(case)
+    except Infra as e:
+        return dict(name=str(payload)[:40], status=f"infra:{e}")
+
+
+def parse_pmf(line):
+    out = {}
+    if line.strip() == "":
+        return out
+    for ent in line.split(" "):
+        k, _, w = ent.rpartition("#")
+        out[k] = Fraction(w)
+    return out
+
+
+def classify_diff(a, b):
+    """which part of the PMF differs (stable key for the finding)"""
+    keys = sorted(set(a) | set(b))
+    diff = [k for k in keys if a.get(k, 0) != b.get(k, 0)]
+    if not diff:
+        return None, []
+    if any("<unsampled-in-dict:" in k for k in diff):
+        cls = "unsampled-in-dict"
+    elif any(k.startswith("crash") for k in diff):
+        cls = "crash"
+    else:
+        def act_mass(d):
+            m = collections.Counter()
+            for k, p in d.items():
+                m[k.split("|")[0]] += p
+            return m
+        if act_mass(a) != act_mass(b):
+            cls = "soft-activation"
+        elif all(k.endswith("|rej") or k.split("|")[1] != "1" for k in diff):
+            cls = "iterations"
+        else:
+            sa = {k.split("|", 2)[2] for k in a if not k.endswith("|rej")}
+            sb = {k.split("|", 2)[2] for k in b if not k.endswith("|rej")}
+            cls = "support" if sa != sb else "probability"
+    return cls, diff
+
+
+def run_cases(ctx, cases, pool, deadline=None):
+    """cases: list of ('seed', s) / ('case', dict).  Returns True when a failing input was found on the real code.
+    Results are taken in submission order until `deadline` (seconds since the start of the run) has passed."""
+    found = False
+    results = []
+    it = pool.imap(_worker, cases, chunksize=1) if pool else map(_worker, cases)
+    for r in it:
+        results.append(r)
+        if deadline is not None and ctx.elapsed() > deadline and len(results) < len(cases):
+            ctx.notes.append(f"time budget reached: {len(results)} of {len(cases)} generated programs examined")
+            break
+    lines, owners = [], []
+    for r in results:
+        st = r.get("status", "?")
+        if st.startswith("infra:"):
+            raise Infra(st)
+        ctx.hist("program", st.split(":")[0] if st != "ok" else "ok")
+        if st != "ok":
+            if st.startswith("compile-failed") or st.startswith("generator-invalid"):
+                ctx.notes.append(f"{r['name']}: {st}") if len(ctx.notes) < 10 else None
+            continue
+        for f in r["features"]:
+            ctx.hist("feature", f)
+        ctx.hist("paths", min(10 ** len(str(r["paths"])), 10000))
+        ctx.hist("maxIterations", r["n"])
+        ctx.hist("random_nodes", r["nrandom"])
+        ctx.hist("mode", "2D" if r["mode2D"] else "3D")
+        ctx.case((r["code"], r["mode2D"], r["n"]), nontrivial=len(r["real"]) > 2)
+        ctx.evaluations += r["paths"] - 1
+        lines.append(f"C01 gen {r['n']} {r['genline']}")
+        owners.append((r, "gen"))
+        if r.get("extline") and r["extline"] != r["genline"]:
+            lines.append(f"C01 gen {r['n']} {r['extline']}")
+            owners.append((r, "ext"))
+        elif not r.get("extline"):
+            ctx.hist("extract", "outside:" + r.get("extract_error", "?")[:40])
+    lean = ctx.driver(lines) if (lines and ctx.extra.get("driver_ok")) else [None] * len(lines)
+    for (r, which), out in zip(owners, lean):
+        if out is None:
+            continue
+        if out in ("bad-program", "bad-op"):
+            raise Infra(f"Lean driver could not parse the {which} term of {r['name']}")
+        r["lean_" + which] = parse_pmf(out)
+    for r in results:
+        if r.get("status") != "ok":
+            continue
+        rep = dict(kind="program", name=r["name"], code=r["code"], mode2D=r["mode2D"], n=r["n"], labels=r["labels"],
+                   genline=r["genline"])
+        # (S) the property itself on the real code: exact PMF against the declarative semantics
+        cls, diff = classify_diff(r["real"], r["spec"])
+        if cls:
+            k = diff[0]
+            what = (f"scene generation of program {r['name']} (maxIterations={r['n']}) does not follow the program's "
+                    f"conditional distribution: outcome {k!r} has probability {r['real'].get(k, 0)} on the real sampler, "
+                    f"{r['spec'].get(k, 0)} under the declarative semantics ({len(diff)} outcomes differ); program:\n{r['code']}")
+            if ctx.violation(f"exact-pmf:{cls}", what, rep):
+                found = True
+            ctx.hist("direct_oracle", f"DIFF:{cls}")
+            continue   # the failing input is identified (or is a listed known finding); nothing to add from (C)
+        ctx.hist("direct_oracle", "agree")
+        # (C) model vs code, on the term re-derived from the compiled scenario and on the generator's term
+        for which, label in (("ext", "sampler model on the compiled dependency graph vs Scenario.generate"),
+                             ("gen", "sampler model on the program text's term vs Scenario.generate")):
+            lp = r.get("lean_" + which)
+            if lp is None and which == "ext" and r.get("extline") == r["genline"]:
+                continue
+            if lp is None:
+                continue
+            c2, d2 = classify_diff(r["real"], lp)
+            if c2:
+                k = d2[0]
+                ctx.broken("correspondence", label,
+                           f"{r['name']}: outcome {k!r}: real {r['real'].get(k, 0)} model {lp.get(k, 0)} "
+                           f"({len(d2)} outcomes differ, class {c2}); program:\n{r['code']}")
+                ctx.hist("correspondence", f"{which}:DIFF")
+            else:
+                ctx.hist("correspondence", f"{which}:agree")
+        if r.get("extline") == r["genline"]:
+            ctx.hist("term_isomorphism", "identical")
+        elif r.get("extline"):
+            ctx.hist("term_isomorphism", "same-pmf" if r.get("lean_ext") == r.get("lean_gen") else "DIFFERENT-PMF")
+    return found
+
+
+# =========================================================================== main
+def run(ctx):
+    ctx.rule = ("case = (program of the finite-discrete fragment, 2D/3D mode, maxIterations); for each the exact PMF of "
+                "Scenario.generate over (active soft requirements, canonical scene, iterations) is obtained by "
+                "enumerating every outcome of random.*; non-trivial = more than two distinct outcomes; distinct by "
+                "content hash of (text, mode, maxIterations); evaluations counts RNG paths")
+    ctx.assumptions += [
+        "CPython's random is idealised: randint uniform, choices proportional to weights, random() a real uniform on "
+        "[0,1) (so `<=` vs `<` against a probability is not distinguished)",
+        "only the finite-discrete fragment is covered (DiscreteRange, Uniform/Options/Discrete, lifted operators, "
+        "attributes, calls, containers, star-unpacking, resample, hard/soft requirements, objects, params, 2D/3D); "
+        "continuous distributions are outside",
+        "object collisions enter only for unrotated unit cubes whose positions coincide or are >= 5 apart",
+    ]
+    ctx.trusted_base += ["tools/translate/sampler.py (template extraction)",
+                         "tools/props/c01.py: RNG-branch enumerator, term extraction from the compiled scenario, "
+                         "declarative brute-force semantics (direct oracle)"]
+    ctx.fingerprint(FINGERPRINTS)
+    from translate import sampler as tr
+    cfgdata = None
+    try:
+        cfgdata = tr.extract()
+        ctx.gen("SamplerCfg", tr.to_lean(cfgdata))
+    except TemplateMismatch as e:
+        ctx.escalated.append(f"translator tie lost (sampler): {e}")
+        ctx.notes.append(f"translator tie lost: {e}; the model runs with its reference configuration and the tie "
+                         "rests on the correspondence run at thorough budget")
+        ctx.gen("SamplerCfg", tr.to_lean(tr.REFERENCE))
+    phases = {"translate": round(ctx.elapsed(), 1)}
+    pr = ctx.prove(THEOREMS, side_conditions=SIDE)
+    phases["prove"] = round(ctx.elapsed(), 1)
+    if ctx.tier == "thorough" and pr.build_ok:
+        ctx.leanchecker(["ScenicModel.Props.C01"])
+        phases["leanchecker"] = round(ctx.elapsed(), 1)
+    ctx.extra["phase_end_s"] = phases
+    # the driver does not depend on the theorem modules: it can still be built when a proof obligation broke
+    ctx.extra["driver_ok"] = bool(pr.build_ok) or ctx.lake(["build", "drv_c01"])[0] == 0
+    import gc
+    import multiprocessing as mp
+    for v in ("OMP_NUM_THREADS", "OPENBLAS_NUM_THREADS", "MKL_NUM_THREADS"):
+        os.environ.setdefault(v, "1")
+    import scenic  # noqa: F401  (imported before forking the workers)
+    nprog = ctx.budget(60, 1500)
+    seeds = [ctx.rng.getrandbits(48) for _ in range(nprog)]
+    nproc = max(1, min(12 if (ctx.tier == "thorough" or ctx.escalated) else 6, (os.cpu_count() or 2) - 2))
+    # warm up everything Scenic initialises lazily, then freeze the heap so that the forked workers share it
+    _worker(("case", dict(name="warmup", code="ego = new Object at (Uniform(0, 5), 0, 0)\nparam a = DiscreteRange(1, 2)\n",
+                          mode2D=False, term=_corpus()[0][3])))
+    gc.collect()
+    gc.freeze()
+    phases["warmup"] = round(ctx.elapsed(), 1)
+    found = False
+    deadline = 1500 if (ctx.tier == "thorough" or ctx.escalated) else 130
+    with mp.get_context("fork").Pool(nproc) as pool:
+        corpus = [("case", dict(name="corpus:" + nm, code=code, mode2D=m2, term=t)) for nm, code, m2, t in _corpus()]
+        found |= run_cases(ctx, corpus, pool)
+        phases["corpus"] = round(ctx.elapsed(), 1)
+        if ctx.tier == "quick" and not ctx.escalated:
+            deadline = max(deadline, ctx.elapsed() + 40)   # on a saturated machine still look at some programs
+        if not found:
+            step = 200
+            for k in range(0, len(seeds), step):
+                found |= run_cases(ctx, [("seed", s) for s in seeds[k:k + step]], pool, deadline)
+                if found or ctx.elapsed() > deadline:
+                    break
+    phases["programs"] = round(ctx.elapsed(), 1)
+    ok = ctx.hists["program"].get("ok", 0)
+    if ok < max(10, 0.5 * (len(_corpus()))):
+        raise Infra(f"only {ok} programs could be examined (generator or enumerator broken?): {dict(ctx.hists['program'])}")
+    ctx.resolve_brokens(found)
+
+
+def replay(ctx, path):
+    body = json.load(open(path))
+    rep = body.get("replay", body)
+    if rep.get("kind") != "program":
+        print(json.dumps(rep, indent=1)[:4000])
+        return 0
+    print(f"program ({'2D' if rep['mode2D'] else '3D'} mode, maxIterations={rep['n']}):\n{rep['code']}")
+    sc = compile_program(rep["code"], rep["mode2D"])
+    real, paths = real_pmf(sc, rep["labels"], rep["n"], max_paths=8 * MAX_PATHS)
+    print(f"real sampler: {paths} RNG paths, {len(real)} outcomes")
+    # the declarative semantics needs the term: re-read it from the recorded line via the corpus / generator
+    term = term_from_line(rep["genline"])
+    spec = spec_pmf(term, rep["n"])
+    cls, diff = classify_diff(real, spec)
+    if not cls:
+        print("real PMF == declarative PMF (no violation on this tree)")
+        return 0
+    print(f"PMFs differ ({cls}); outcome: real / declarative")
+    for k in diff[:40]:
+        print(f"  {k}: {real.get(k, 0)} / {spec.get(k, 0)}")
+    return 1
+
+
+def term_from_line(line):
+    """inverse of Term.line (used by replay)"""
+    toks = line.split(" ")
+    pos = [0]
+
+    def nxt():
+        pos[0] += 1
+        return toks[pos[0] - 1]
+
+    def val():
+        t = nxt()
+        if t[0] == "n":
+            f = Fraction(t[1:])
+            return int(f) if f.denominator == 1 else float(f)
+        if t[0] == "b":
+            return t[1] == "T"
+        if t[0] == "s":
+            return "" if t[1:] == "-" else bytes.fromhex(t[1:]).decode()
+        if t[0] == "t":
+            return tuple(val() for _ in range(int(t[1:])))
+        if t[0] == "l":
+            return [val() for _ in range(int(t[1:]))]
+        if t == "N":
+            return None
+        raise ValueError(t)
+
+    def arg():
+        t = nxt()
+        return (t[0] == "s", int(t[1:]))
+
+    def rexpr():
+        t = nxt()
+        if t == "c":
+            return ("const", val())
+        if t == "o":
+            name = nxt()
+            k = int(nxt())
+            return ("op", name, [rexpr() for _ in range(k)])
+        return ("ref", int(t[1:]))
+    term = Term()
+    for _ in range(int(nxt())):
+        k = nxt()
+        if k == "C":
+            term.add("const", val())
+        elif k == "R":
+            term.add("drange", int(nxt()), int(nxt()))
+        elif k == "S":
+            term.add("selector", int(nxt()))
+        elif k == "D":
+            term.add("dynsel", int(nxt()))
+        elif k == "W":
+            term.add("windex", [Fraction(nxt()) for _ in range(int(nxt()))])
+        elif k == "M":
+            idx = int(nxt())
+            term.add("mux", idx, [int(nxt()) for _ in range(int(nxt()))])
+        elif k == "U":
+            sel = int(nxt())
+            term.add("ustar", sel, [arg() for _ in range(int(nxt()))])
+        elif k == "O":
+            name = nxt()
+            term.add("op", name, [arg() for _ in range(int(nxt()))])
+    assert nxt() == "OUT"
+    for _ in range(int(nxt())):
+        lab = nxt()
+        term.outputs.append((lab, int(nxt())))
+    assert nxt() == "REQ"
+    for _ in range(int(nxt())):
+        p = Fraction(nxt())
+        term.reqs.append((p, rexpr()))
+    assert nxt() == "DEF"
+    for _ in range(int(nxt())):
+        term.defaults.append(rexpr())
+    return term
